@@ -141,7 +141,7 @@ def plan_call_unit(ctx):
     return "ok"
 
 
-@unit("plumbing.copies", props=["C13"], functions=[(PL, "Plan.copy"), (RG, "Registry.copy"), (PL, "Plan.scope")],
+@unit("plumbing.copies", props=["C13", "C19"], functions=[(PL, "Plan.copy"), (RG, "Registry.copy"), (PL, "Plan.scope")],
       assumptions=["T5 MultiDiGraph.copy() shares no adjacency with the original", "copy.copy of a __slots__ object makes a distinct object"], min_obligations=5)
 def copies_unit(ctx):
     import contextlib
@@ -174,11 +174,15 @@ def copies_unit(ctx):
     ctx.check("Plan.copy:new-Plan-whose-graph-is-graph.copy()-of-the-original", bool(q is not p and isinstance(q, Plan) and q.graph.tag == "copy-of-orig" and log == [("graph.copy", p.graph)]))
     ctx.check("Plan.copy:original-untouched;copy-starts-with-empty-scope-and-its-own-lock", bool(p.graph.tag == "orig" and p._scope == ("in", "scope") and q._scope == () and q._scope_lock is not p._scope_lock))
 
-    class RVal:
-        __slots__ = ("value_store", "is_source", "stack_frame")
+    import importlib
 
-        def __init__(self, v, s, f):
-            self.value_store, self.is_source, self.stack_frame = v, s, f
+    from ujvc.z3env import ensure_repo_first
+
+    ensure_repo_first()
+    _RealRV = importlib.import_module("uberjob._registry").RegistryValue     # the entries are the real class of the tree (however it copies itself)
+
+    def RVal(v, s, f):
+        return _RealRV(v, is_source=s, stack_frame=f)
 
     class Registry:
         def __init__(self):
@@ -194,7 +198,7 @@ def copies_unit(ctx):
     ok = (r2 is not r and r2.mapping is not r.mapping and list(r2.mapping) == [n1, n2]
           and all(r2.mapping[k] is not r.mapping[k] and r2.mapping[k].value_store is r.mapping[k].value_store
                   and r2.mapping[k].is_source == r.mapping[k].is_source and r2.mapping[k].stack_frame == r.mapping[k].stack_frame for k in (n1, n2)))
-    ctx.check("Registry.copy:new-mapping,each-RegistryValue-copied(same-store,flags,frame),same-nodes-in-order", bool(ok))
+    ctx.check("Registry.copy:new-mapping,each-RegistryValue-copied(same-store,flags,frame),same-nodes-in-order", bool(ok), props=["C13", "C19", "C05"])
     # Plan.scope restores the scope on every exit
     senv = {"contextmanager": contextlib.contextmanager}
     scope = get(PL, "Plan.scope").compile_into(senv)
